@@ -36,6 +36,7 @@ def run(ctx):
         c2(F, res)
         c3(F, res)
         c4(F, res)
+        c5(F, res)
     except EvalError as e:
         res.error('not analysable: %s' % e)
     return res
@@ -96,6 +97,58 @@ def c2(F, res):
         else:
             res.bad('raw/' + meth, 'RawCustomSection::%s does not return the stored %s unmodified: %s'
                     % (meth, meth, [show(w.value) for w in ws][:2]))
+
+
+def c5(F, res):
+    """remove_raw(name) takes exactly one section out - the one it returns - and leaves every other slot alone"""
+    p = 'module::custom::ModuleCustomSections::remove_raw'
+    if p not in F.hir:
+        return
+    ws = Evaluator(F, local_policy(F, p, events=[r'Option::take$', r'::delete$', r'mem::take$', r'mem::replace$'])).run_fn(p, [sym('self'), sym('name')])
+    bad = None
+    n = 0
+    for w in ws:
+        if w.outcome not in ('return', 'pruned'):
+            continue
+        takes = [e for e in w.trace if e['kind'] == 'call' and e['callee'].split('::')[-1] in ('take', 'replace')]
+        dels = [e for e in w.trace if e['kind'] == 'call' and e['callee'].endswith('::delete')]
+        inloop = [e for e in takes + dels if e['loops']]
+        if inloop:
+            bad = 'empties or deletes slots inside its search loop (every match, not only the one it returns)'
+            continue
+        if w.outcome != 'return' or not (isinstance(w.value, tuple) and w.value[0] == 'ctor' and w.value[2] == 'Some'):
+            if takes or dels:
+                bad = 'removes something on a path that returns nothing'
+            continue
+        if len(takes) != 1 or len(dels) != 1:
+            bad = 'takes %d slot(s) and deletes %d for one returned section' % (len(takes), len(dels))
+            continue
+        slot = takes[0]['args'][0]
+        sid = dels[0]['args'][1]
+        while slot[0] == 'ok':
+            slot = slot[1]
+
+        def found_key(t):
+            # the id produced by the search, whatever the state of its predicate in this world
+            while isinstance(t, tuple) and t and t[0] == 'ok':
+                t = t[1]
+            if isinstance(t, tuple) and t and t[0] == 'call' and t[1].split('::')[-1] in ('find', 'next', 'find_map', 'position') and t[2]:
+                return ('search', show(t[2][0])[:120])
+            if isinstance(t, tuple) and t and t[0] == 'field':
+                return ('field', found_key(t[1]), t[2])
+            return t
+        same = slot[0] == 'call' and slot[1].split('::')[-1] in ('index', 'index_mut', 'get_mut', 'get') and len(slot[2]) == 2 \
+            and (slot[2][1] == sid or found_key(slot[2][1]) == found_key(sid))
+        if not same:
+            bad = 'empties %s but deletes %s' % (show(slot)[:60], show(sid)[:60])
+            continue
+        n += 1
+    if bad:
+        res.bad('remove_raw/one-slot', 'ModuleCustomSections::remove_raw ' + bad + ': other custom sections would silently disappear')
+    elif n:
+        res.ok('remove_raw/one-slot', {'remove_raw': 'one take + one delete, same slot, outside the search'})
+    else:
+        res.error('remove_raw: no successful world')
 
 
 def c3(F, res):
